@@ -133,6 +133,8 @@ type BDown struct {
 	Alias  uint32
 	QoS    message.QoS
 	closed bool
+	annUp  map[string][]uint32 // upstream name -> aliases the client announced (in order)
+	annId  map[string][]uint32 // data id name -> aliases announced or pre-registered
 }
 
 // DialStep scripts one dial attempt.
@@ -786,7 +788,10 @@ func (i *Inc) handle(m message.Message) {
 		}
 	case *message.DownstreamOpenRequest:
 		b.mu.Lock()
-		d := &BDown{ID: uuid.New(), Alias: t.DesiredStreamIDAlias, QoS: t.QoS}
+		d := &BDown{ID: uuid.New(), Alias: t.DesiredStreamIDAlias, QoS: t.QoS, annUp: map[string][]uint32{}, annId: map[string][]uint32{}}
+		for a, id := range t.DataIDAliases {
+			d.annId[id.Name] = append(d.annId[id.Name], a)
+		}
 		d.Sid = fmt.Sprintf("d%d", len(b.downs)+1)
 		b.downs[d.ID] = d
 		b.dnBySid[d.Sid] = d
@@ -851,12 +856,23 @@ func (i *Inc) handle(m message.Message) {
 		}
 		ua := [][]any{}
 		for a, info := range t.UpstreamAliases {
-			ua = append(ua, []any{int(a), b.upKeyOf(info.StreamID), info.SessionID, info.SourceNodeID})
+			name := b.upKeyOf(info.StreamID)
+			ua = append(ua, []any{int(a), name, info.SessionID, info.SourceNodeID})
+			if d != nil {
+				b.mu.Lock()
+				d.annUp[name] = append(d.annUp[name], a)
+				b.mu.Unlock()
+			}
 		}
 		sort.Slice(ua, func(x, y int) bool { return ua[x][0].(int) < ua[y][0].(int) })
 		da := [][]any{}
 		for a, id := range t.DataIDAliases {
 			da = append(da, []any{int(a), id.Name})
+			if d != nil {
+				b.mu.Lock()
+				d.annId[id.Name] = append(d.annId[id.Name], a)
+				b.mu.Unlock()
+			}
 		}
 		sort.Slice(da, func(x, y int) bool { return da[x][0].(int) < da[y][0].(int) })
 		b.rec.Log("BRecvDownAck", "c", i.c, "alias", int(t.StreamIDAlias), "sid", sid, "ackID", int(t.AckID),
@@ -948,6 +964,26 @@ func (b *Broker) Up(sid string) *BUp {
 	b.mu.Lock()
 	defer b.mu.Unlock()
 	return b.upBySid[sid]
+}
+
+// AnnouncedUp returns the latest alias the client announced for an upstream name (0 if none).
+func (b *Broker) AnnouncedUp(d *BDown, name string) uint32 {
+	b.mu.Lock()
+	defer b.mu.Unlock()
+	if l := d.annUp[name]; len(l) > 0 {
+		return l[len(l)-1]
+	}
+	return 0
+}
+
+// AnnouncedId returns the latest alias announced or pre-registered for a data id name (0 if none).
+func (b *Broker) AnnouncedId(d *BDown, name string) uint32 {
+	b.mu.Lock()
+	defer b.mu.Unlock()
+	if l := d.annId[name]; len(l) > 0 {
+		return l[len(l)-1]
+	}
+	return 0
 }
 
 func (b *Broker) Down(sid string) *BDown {
